@@ -451,3 +451,82 @@ def coqchk(vlib, rep, pid):
     rep.cov["coqchk"] = "ok, no axioms" if clean else txt[-600:]
     if not clean:
         rep.broken.append(("proof", f"coqchk does not accept the compiled proofs of {pid}: " + txt[-400:], None))
+
+
+# --------------------------------------------------------------------------- large back-references
+
+def far_reference_streams(rng, tier):
+    """Spec-valid streams whose copies reach far back (more than 32 KiB / 64 KiB / 128 KiB of output
+    already produced): forms carquet's own compressors never emit (copy-4; copy-2 and LZ4 offsets above
+    32768).  Implementation + reference decoders only.  Returns [(fmt, label, stream, content)]."""
+    res = []
+
+    def snappy_base(total):
+        """literals totalling `total` bytes, in several length forms"""
+        out = bytearray(); body = bytearray()
+        left = total
+        for ln, form in ((60, 0), (256, 1), (65536, 2), (70000, 3), (1000, 4)):
+            ln = min(ln, left)
+            if ln <= 0:
+                break
+            data = rnd(rng, ln)
+            if form == 0 and ln > 60:
+                form = 2
+            body += snappy_lit(data, form); out += data; left -= ln
+        while left > 0:
+            ln = min(left, 65536)
+            data = rnd(rng, ln); body += snappy_lit(data, 3); out += data; left -= ln
+        return out, body
+
+    def snappy_stream(total, copies, label):
+        out, body = snappy_base(total)
+        for kind, off, ln in copies:
+            if off == "produced":
+                off = len(out)
+            if off > len(out) or (kind == 2 and off > 65535):
+                continue
+            body += snappy_copy(off, ln, kind)
+            apply_copy(out, off, ln)
+        res.append(("snappy", label, varint(len(out)) + bytes(body), bytes(out)))
+
+    offs4 = [32768, 32769, 65535, 65536, 65537, 70000, 131072, "produced"]
+    k = rng.randrange(1, 300)
+    # one stream per far offset (so that the replay names the offending form), copy-4, lengths 1 / 4 / 64
+    for off in (65537, 70000, 131072, "produced"):
+        total = (65536 + k) if off in (65537, "produced") else (70000 + k) if off == 70000 else (131072 + k)
+        snappy_stream(total, [(4, off, ln) for ln in (1, 4, 64)], f"copy4_off_{off}")
+    snappy_stream(65536 + k, [(4, off, ln) for off in offs4 for ln in (1, 4, 64)], "copy4_all_64k")
+    snappy_stream(131072 + 2 * k, [(4, off, ln) for off in offs4 for ln in (1, 4, 64)] +
+                  [(4, rng.randrange(65537, 131072), rng.randrange(1, 65)) for _ in range(20)], "copy4_all_128k")
+    snappy_stream(65536 + k, [(2, off, ln) for off in (32769, 32770, 40000, 65534, 65535, rng.randrange(32769, 65536))
+                              for ln in (1, 4, 64)] + [(4, 1, 64), (4, 2, 64), (4, 3, 7)], "copy2_far")
+    if tier == "thorough":
+        for _ in range(6):
+            total = rng.randrange(65537, 200000)
+            snappy_stream(total, [(rng.choice([2, 4, 4]), rng.randrange(1, total), rng.randrange(1, 65)) for _ in range(60)], "far_random")
+
+    def lz4_stream(first_lits, seqs, last, label):
+        out = bytearray(); body = bytearray()
+        lits = rnd(rng, first_lits)
+        for i, (off, ml, nxt) in enumerate(seqs):
+            out += lits
+            if off == "produced":
+                off = min(len(out), 65535)
+            off = min(off, len(out), 65535)
+            body += lz4_seq(lits, off, ml)
+            apply_copy(out, off, ml) if off < ml else out.extend(out[len(out) - off:len(out) - off + ml])
+            lits = rnd(rng, nxt)
+        tail = lits + rnd(rng, last)
+        out += tail
+        body += lz4_last(tail)
+        res.append(("lz4", label, bytes(body), bytes(out)))
+
+    far = [32768, 32769, 40000, 65534, 65535]
+    lz4_stream(70000 + k, [(off, ml, rng.choice([0, 1, 20])) for off in far for ml in (4, 19, 300)], 12, "lz4_far_offsets")
+    lz4_stream(65530, [(1000, 20, 3), (65535, 70000, 0), (1, 300, 5)], 12, "lz4_match_crossing_64k")   # matches crossing 64 KiB
+    lz4_stream(65535, [(65535, 4, 0), ("produced", 19, 0)], 12, "lz4_offset_65535_at_start")
+    if tier == "thorough":
+        for _ in range(4):
+            n0 = rng.randrange(65536, 150000)
+            lz4_stream(n0, [(rng.randrange(32768, 65536), rng.randrange(4, 1000), rng.randrange(0, 30)) for _ in range(40)], 12, "lz4_far_random")
+    return res
